@@ -108,7 +108,7 @@ def reduce_cases(draw, tier="quick", funcs=FUNCS, nplans=3, allow_blockwise=True
         if kind == "floatint" and all(float(x).is_integer() for x in labels) and draw(st.booleans()):
             case["expected"]["cast"] = "int"  # integer expected_groups for float labels
         if any(x not in present for x in labels):
-            case["fill_value"] = draw(st.sampled_from(["nan", 0, "NA"]))
+            case["fill_value"] = draw(st.sampled_from(["nan", 0, "NA"] if ("f" in dt and func not in ("count", "any", "all")) else ["nan", 0]))
             if func in ARG_FUNCS:
                 case["fill_value"] = draw(st.sampled_from([0, -1]))
     case["engine"] = draw(st.sampled_from(engines or ["numpy", "numpy", "flox", "numbagg", None, None]))
